@@ -10,6 +10,7 @@
  * With -t <k> the whole script is replayed concurrently on k threads and the
  * per-thread outputs must be identical (checked here; exit 3 otherwise). */
 #include <inttypes.h>
+#include <malloc.h>
 #include <pthread.h>
 #include <stddef.h>
 #include <stdint.h>
@@ -112,9 +113,62 @@ static void *run_script(void *arg) {
     return NULL;
 }
 
+/* Soak: `count` dendrograms live at the same time (inputs freed at once), read back, then every
+ * handle freed exactly once in the given order; the bytes the allocator has in use must return
+ * to where they were (LeakSanitizer does not see blocks that a static table still points to). */
+static size_t in_use(void) { struct mallinfo2 mi = mallinfo2(); return mi.uordblks + mi.hblkhd; }
+
+static int soak(size_t count, int order, int check) {
+    kodama_dendrogram **h = malloc(count * sizeof *h);
+    malloc_trim(0);
+    size_t before = in_use();
+    for (size_t i = 0; i < count; i++) {
+        size_t n = (size_t[]){2, 3, 0, 1, 5, 2, 3, 4}[i % 8];
+        size_t len = n * (n ? n - 1 : 0) / 2;
+        kodama_method m = (i % 3 == 0) ? kodama_method_average : (i % 3 == 1 ? kodama_method_single : kodama_method_ward);
+        if (i % 2 == 0) {
+            double *b = malloc((len ? len : 1) * sizeof(double));
+            for (size_t k = 0; k < len; k++) b[k] = 1.0 + (double)((i + 3 * k) % 7);
+            h[i] = kodama_linkage_double(b, n, m); memset(b, 0xA5, (len ? len : 1) * sizeof(double)); free(b);
+        } else {
+            float *b = malloc((len ? len : 1) * sizeof(float));
+            for (size_t k = 0; k < len; k++) b[k] = 1.0f + (float)((i + 3 * k) % 7);
+            h[i] = kodama_linkage_float(b, n, m); memset(b, 0xA5, (len ? len : 1) * sizeof(float)); free(b);
+        }
+        if (!h[i]) { fprintf(stderr, "soak: NULL dendrogram at %zu\n", i); return 4; }
+    }
+    for (size_t i = 0; i < count; i++) {
+        size_t n = (size_t[]){2, 3, 0, 1, 5, 2, 3, 4}[i % 8];
+        size_t want = n ? n - 1 : 0;
+        if (kodama_dendrogram_len(h[i]) != want || kodama_dendrogram_observations(h[i]) != n) {
+            fprintf(stderr, "soak: handle %zu of %zu live: len %zu observations %zu, expected %zu %zu\n", i, count,
+                    kodama_dendrogram_len(h[i]), kodama_dendrogram_observations(h[i]), want, n);
+            return 6;
+        }
+        const kodama_step *st = kodama_dendrogram_steps(h[i]);
+        for (size_t k = 0; k < want; k++) if (st[k].size < 2 || st[k].size > n) { fprintf(stderr, "soak: handle %zu step %zu size %zu\n", i, k, st[k].size); return 6; }
+    }
+    if (order == 0) for (size_t i = 0; i < count; i++) kodama_dendrogram_free(h[i]);
+    else if (order == 1) for (size_t i = count; i-- > 0;) kodama_dendrogram_free(h[i]);
+    else { for (size_t i = 0; i < count; i += 2) kodama_dendrogram_free(h[i]); for (size_t i = 1; i < count; i += 2) kodama_dendrogram_free(h[i]); }
+    malloc_trim(0);
+    size_t after = in_use();
+    long leaked = (long)after - (long)before;
+    if (check) printf("soak count %zu order %d in_use_before %zu after %zu\n", count, order, before, after);
+    free(h);
+    if (check && leaked > 512) { fprintf(stderr, "soak: %ld bytes still allocated after freeing every one of %zu dendrograms exactly once (order %d)\n", leaked, count, order); return 5; }
+    return 0;
+}
+
 int main(int argc, char **argv) {
     int threads = 1; const char *path = NULL;
     for (int i = 1; i < argc; i++) {
+        if (!strcmp(argv[i], "--soak") && i + 2 < argc) {
+            printf("soak\n"); fflush(stdout);
+            int w = soak(64, 0, 0);   /* warm-up: stdio buffers and the like are allocated once */
+            if (w) return w;
+            return soak(strtoull(argv[i + 1], NULL, 10), atoi(argv[i + 2]), 1);
+        }
         if (!strcmp(argv[i], "-t") && i + 1 < argc) threads = atoi(argv[++i]);
         else if (!strcmp(argv[i], "--layout")) {
             printf("sizeof_step %zu off_c1 %zu off_c2 %zu off_dis %zu off_size %zu sizeof_size_t %zu enum %d %d %d %d %d %d %d\n",
